@@ -45,8 +45,10 @@ func runElectCase(c ElectCase) Outcome {
 			return o
 		}
 		old := f.memberAcc(rv0.Proposer)
+		var pooled []byte
 		if r.PreChk {
 			raw, _ := sim.Node.Tx(old, 0, world.TxOpts{}, probe(old, rv0.Proposer, 800_000+uint64(ri)).msg)
+			pooled = raw
 			if resp, err := sim.Node.CheckTx(raw, false); err != nil || resp.Code != 0 {
 				o.Fail = failf("admission", "admissible-transaction-refused/check", "round %d: the current proposer's transaction was refused before the election: %v %v", ri, resp, err)
 				return o
@@ -83,6 +85,19 @@ func runElectCase(c ElectCase) Outcome {
 			continue
 		}
 		o.NonTrivial = true
+		if pooled != nil {
+			// the transaction the replaced proposer had in the mempool is re-checked after the block: it must be evicted
+			resp, err := sim.Node.CheckTx(pooled, true)
+			if err != nil {
+				o.Fail = failf("no-crash", "checktx-failed", "%v", err)
+				return o
+			}
+			if resp.Code == 0 {
+				o.Fail = failf("admission", "replaced-proposer-admitted-after-election", "round %d (proposer %s -> %s): the replaced proposer's pooled transaction passes the re-check after the election", ri, rv0.Proposer, rv1.Proposer)
+				return o
+			}
+			o.Classes = append(o.Classes, "pooled-tx-rechecked")
+		}
 		cur := f.memberAcc(rv1.Proposer)
 		type pr struct {
 			who  string
@@ -174,6 +189,6 @@ func TestC10_AfterElection(t *testing.T) {
 			return c
 		},
 		Run:  runElectCase,
-		Rule: "relayer groups of 1-4 voters with a 20 s electing period; 2-8 rounds: the outgoing proposer optionally has a transaction in the mempool and/or in the block whose end-of-block logic holds the election; directly after that block (or 1-2 plain blocks later) a bridge message signed by the newly elected proposer must be admitted and one signed by the replaced proposer (naming itself or the new proposer) must be refused, through CheckTx, ProcessProposal or FinalizeBlock (account sequence advance); non-trivial = an election that changed the proposer; evaluations count rounds",
+		Rule: "relayer groups of 1-4 voters with a 20 s electing period; 2-8 rounds: the outgoing proposer optionally has a transaction in the mempool and/or in the block whose end-of-block logic holds the election; directly after that block (or 1-2 plain blocks later) a bridge message signed by the newly elected proposer must be admitted and one signed by the replaced proposer (naming itself or the new proposer) must be refused, through CheckTx, ProcessProposal or FinalizeBlock (account sequence advance), and the re-check of the transaction the replaced proposer had in the mempool must evict it; non-trivial = an election that changed the proposer; evaluations count rounds",
 	})
 }
